@@ -6,6 +6,8 @@ CONSTANTS NP = 2
   Cap = 9
   D = 2
   Skip <- MCNoSkip
+  ResOut = 65533
+  ResOther = 65531
   Thin = FALSE
 INIT Init
 NEXT Next
